@@ -445,10 +445,13 @@ class _IncomingPacketHandler(Thread):
 
     def run(self):
         while True:
-            if self.cf.link is None:
+            # Read the link once: it is set to None by close_link() and by
+            # link errors in other threads
+            link = self.cf.link
+            if link is None:
                 time.sleep(1)
                 continue
-            pk = self.cf.link.receive_packet(1)
+            pk = link.receive_packet(1)
 
             if pk is None:
                 continue
